@@ -16,7 +16,7 @@ from ._handshake import SUPPORTED_REDIRECT_STATUSES, handshake
 from ._http import connect, proxy_info
 from ._logging import debug, error, trace, isEnabledForError, isEnabledForTrace
 from ._socket import getdefaulttimeout, recv, send, sock_opt
-from ._ssl_compat import ssl
+from ._ssl_compat import SSLError, ssl
 from ._utils import NoLock
 from ._dispatcher import DispatcherBase, WrappedDispatcher
 
@@ -286,6 +286,9 @@ class WebSocket:
                             options.pop("socket", None),
                         )
                     except ValueError as e:
+                        if isinstance(e, SSLError):
+                            # a certificate verification failure is a ValueError as well
+                            raise
                         # the redirect target comes from the server, not from the caller
                         self.sock = None
                         raise WebSocketBadStatusException(
